@@ -24,6 +24,7 @@ ENUM_POOL = ["Ee", "Ff", "Aa"]
 FIELD_POOL = ["x", "y", "z", "w", "len"]
 ABBR_POOL = ["x", "l", "q", "z"]
 VALUE_POOL = ["AA", "BB", "CC"]
+INLINE_POOL = ["aa", "bb", "ee", "ff", "dd"]  # inline `enum aa:` fields define types Aa, Bb, ... that collide with the pools above
 
 
 class Def(object):
@@ -203,6 +204,9 @@ class Builder(object):
         d.line = self.emit(file, "  " * depth + "struct %s%s:" % (name, params))
         for p in pdefs:
             p.line = d.line
+            # the parameter's type is a reference too, looked up from inside the structure
+            pref = Ref("type", ["UInt"], d.own, d.line, p.name)
+            self.refs.append(pref)
         scope.defs.append(d)
         self.all_types.append(d)
         if depth < 2:
@@ -224,9 +228,40 @@ class Builder(object):
             pos += 1
         return d
 
+    def inline_enum_field(self, sdef, file, depth, pos):
+        """`pos [+1] enum aa:` defines the field aa AND a type Aa in the structure's scope; the
+        compiler-generated reference from the field to that type is the one reference that is
+        resolved innermost-first without an ambiguity check.  Names are chosen so that the type
+        collides with the type pools."""
+        r = self.rnd
+        sc = sdef.own
+        used = set(d.name for d in sc.defs)
+        free = [n for n in INLINE_POOL if n not in used]
+        if not free:
+            return False
+        name = r.choice(free)
+        tname = name[0].upper() + name[1:]
+        f = Def("field", name, sc)
+        f.line = self.emit(file, "  " * depth + "%d [+1]  enum  %s:" % (pos, name))
+        td = Def("enum", tname, sc)
+        td.own = Scope("enum", tname, sc, file)
+        td.line = f.line
+        for i in range(r.choice([1, 2])):
+            vn = self.pick_name(VALUE_POOL, td.own, allow_dup=0.0)
+            v = Def("value", vn, td.own)
+            v.line = self.emit(file, "  " * (depth + 1) + "%s = %d" % (vn, i))
+            td.own.defs.append(v)
+        f.ftype = td
+        sc.defs.append(td)
+        sc.defs.append(f)
+        self.all_types.append(td)
+        return True
+
     def field(self, sdef, file, depth, pos):
         r = self.rnd
         sc = sdef.own
+        if r.random() < 0.12 and self.inline_enum_field(sdef, file, depth, pos):
+            return
         name = self.pick_name(FIELD_POOL, sc, allow_dup=0.03)
         f = Def("field", name, sc)
         abbr = None
